@@ -202,7 +202,52 @@ func burnAlphabet(w *world.World, min currency.Coin) []chainsim.Action {
 	return acts
 }
 
+// c19warm: burns interleaved with owner updates of the bridge configuration under a WARM state cache.
+// A rejected update must not leak into what later burns see: the oracle is the unchanged one (the
+// minimum is read from the trie of the pre-state).
+func c19warm(run *ev.Run) {
+	w := world.New(world.Options{SC: map[string]any{"smart_contracts.zcnsc.min_burn": 0.0000001}})
+	upd := func(fields map[string]string, tag string) chainsim.Action {
+		return call(w, "owner", "zcnsc", zcnsc.UpdateGlobalConfigFunc, map[string]any{"fields": fields}, 0, 0, tag)
+	}
+	burn := func(who, addr string, v currency.Coin) chainsim.Action {
+		return call(w, who, "zcnsc", "burn", map[string]string{"ethereum_address": addr}, v, 0, fmt.Sprintf("[addr=%.4s,v=%d]", addr, uint64(v)))
+	}
+	acts := []chainsim.Action{
+		// docker.local min_stake 0 does not pass the contract's Validate: a valid update must raise it
+		upd(map[string]string{"min_burn": "0.00000005", "min_stake": "1"}, "{valid:min_burn=500,min_stake=1}"),
+		upd(map[string]string{"min_stake": "1"}, "{valid:min_stake=1}"),
+		upd(map[string]string{"min_burn": "0"}, "{rejected:min_burn=0}"),
+		upd(map[string]string{"min_burn": "0.00000001", "max_delegates": "0"}, "{rejected:min_burn=100,max_delegates=0}"),
+		upd(map[string]string{"min_burn": "0.00000001", "zzz": "1"}, "{rejected:min_burn=100,unknown-key-sorting-after}"),
+		upd(map[string]string{"min_burn": "0.00000001", "aaa": "1"}, "{rejected:min_burn=100,unknown-key-sorting-before}"),
+		call(w, "c0", "zcnsc", zcnsc.UpdateGlobalConfigFunc, map[string]any{"fields": map[string]string{"min_burn": "0.00000001", "min_stake": "1"}}, 0, 0, "{not-owner:min_burn=100}"),
+		burn("c0", ethA, 1000), burn("c0", ethA, 999), burn("c0", ethA, 500), burn("c0", ethA, 499), burn("c0", ethA, 150), burn("c0", ethA, 1),
+		burn("c1", ethA, 150), burn("c1", "", 1000),
+	}
+	run.Rule = "WARM state cache: BFS over sequences of owner update-global-config {valid lowering of min_burn (with min_stake), valid other key, rejected: min_burn 0 / min_burn lowered together with an invalid max_delegates / with an unknown key sorting after resp. before it, same by a non-owner} interleaved with burns of {1000, 999, 500, 499, 150, 1} to address A by two burners and an address-less burn; oracle unchanged: the minimum is the one stored in the trie of the pre-state; a burn below it or without address changes nothing, a successful burn moves exactly the value and raises exactly that address's nonce by one"
+	warmCache = true
+	explore(run, w, acts, nil, run.Pick(4, 5), true, 50, 780, burnMonitor, func(s *chainsim.Step, v func(key, what string)) {
+		if s.Txn.FunctionName != zcnsc.UpdateGlobalConfigFunc || s.Err != nil {
+			return
+		}
+		a, b := zcnGlobal(s.Pre.Leaves), zcnGlobal(s.Post.Leaves)
+		res := "stored-min-unchanged"
+		if a.MinBurnAmount != b.MinBurnAmount {
+			res = "stored-min-changed"
+		}
+		s.Tag("config-update:" + outcomeOf(s) + ":" + res)
+		if s.Txn.Status != transaction.TxnSuccess && a.MinBurnAmount != b.MinBurnAmount {
+			v("C19:rejected-config-update-changed-stored-min-burn", fmt.Sprintf("stored min_burn %d -> %d by a rejected update", uint64(a.MinBurnAmount), uint64(b.MinBurnAmount)))
+		}
+	})
+}
+
 func c19(run *ev.Run) {
+	if a := argsAfterTier(); len(a) > 0 && a[0] == "warm" {
+		c19warm(run)
+		return
+	}
 	w := world.New(world.Options{SC: map[string]any{"smart_contracts.zcnsc.min_burn": 0.0000001}})
 	min := currency.Coin(1000)
 	// make c2 poor: it sends away all but 2*min+? tokens in the root script
